@@ -34,7 +34,7 @@ FP = {
     "onnxscript/rewriter/rules/common/_remove_expand_before_binary_op.py": [
         "_compute_broadcast_dim", "_compute_broadcast_shape", "_check_dims_sufficient", "_check_expand_removable",
         "_ExpandFirstInput.pattern", "_ExpandFirstInput.check", "_ExpandFirstInput.rewrite",
-        "_ExpandSecondInput.pattern", "_ExpandSecondInput.check", "_ExpandSecondInput.rewrite",
+        "_ExpandSecondInput.pattern", "_ExpandSecondInput.check", "_ExpandSecondInput.rewrite", "_make_expand_before_binary_op_rules",
     ],
     "onnxscript/rewriter/rules/common/_redundant_scatter_nd.py": ["ScatterAllDynamic.pattern", "ScatterAllDynamic.check", "ScatterAllDynamic.rewrite",
                                                                     "ScatterAllStatic.pattern", "ScatterAllStatic.check", "ScatterAllStatic.rewrite"],
@@ -321,7 +321,7 @@ def run_helpers(run, drv, R, n, stats, problems):
         if kind == "ruleExpandBinary":
             mm = H.rule_expected(m, r) if r.count(":") >= 2 else m
             stats["br_ruleExpandBinary:op:" + r.split(":")[0]] += 1
-            stats["br_ruleExpandBinary:verdict:" + m.split(":")[0] + ":side" + (r.split(":")[1] if r.count(":") >= 2 else "?")] += 1
+            stats["br_ruleExpandBinary:fires:" + m + ":side" + (r.split(":")[1] if r.count(":") >= 2 else "?")] += 1
         stats["helper_cases"] += 1
         stats["k_" + kind] += 1
         if r != mm:
@@ -338,6 +338,9 @@ def parse_line_args(line):
         return kind, (dec_shape(t[1]), dec_shape(t[2]))
     if kind == "sameDim":
         return kind, (dec_shape(t[1])[0], dec_shape(t[2])[0])
+    if kind == "ruleFires":
+        c = None if t[6] == "N" else ([] if t[6] == "-" else [int(v) for v in t[6].split(",")])
+        return "ruleExpandBinary", (dec_shape(t[4]), dec_shape(t[5]), c, dec_shape(t[7]), dec_shape(t[8]))
     if kind == "expandRemovable":
         c = None if t[3] == "N" else ([] if t[3] == "-" else [int(v) for v in t[3].split(",")])
         return kind, (dec_shape(t[1]), dec_shape(t[2]), c, dec_shape(t[4]), dec_shape(t[5]))
